@@ -8,6 +8,7 @@ import Hoot.Props.C09
 import Hoot.Props.C10
 import Hoot.Props.C11
 import Hoot.Proofs.ExchangeAll
+import Hoot.Proofs.ExchangeRefuse
 
 /-! # C01 — the exchange outcome is independent of I/O segmentation and buffer sizes
 
@@ -28,13 +29,16 @@ message (plus the interim `100`), and ends in the state the status dictates; `C0
 `C01_exchange_live`: once everything has arrived no schedule can wedge the flow.
 
 What the composed theorems do **not** cover (the claim stays `partial`; these are decided by the
-correspondence and the cross-schedule oracle on the implementation): responses that refuse an `Expect`
-request (there the outcome legitimately depends on whether the caller gave up first), malformed streams,
+correspondence and the cross-schedule oracle on the implementation): malformed streams,
 3xx heads with `Location` under the partial-redirect fallback (finding D10, owned by C05), and — for
 redirect chains — the composition itself: `C01_follow_setup` shows each hop is again a covered start and
 `C01_pipeline` the hand-over of the stream position, the chain as one run is not stated. Close-delimited
 response bodies are covered when nothing follows them on the connection (`b0.isClose → tail = []`: the
-caller reads until the connection has ended); `C01_exchange_live` covers both directions. -/
+caller reads until the connection has ended); `C01_exchange_live` covers both directions. A server that
+answers an `Expect` request with a final response instead of `100` is covered by `C01_refused_outcome` /
+`C01_refused_independent` (`Proofs/ExchangeRefuse.lean`): the response side is schedule-independent, and the
+request that went out is one of exactly two — head + whole body (the caller gave up first) or the head alone
+(it looked first and `try_read_100` refused). -/
 
 /-- the read-only queries of the API -/
 def Op.isQuery : Op → Bool
@@ -468,3 +472,39 @@ theorem C01_pipeline (hack : Bool)
   obtain ⟨_, _, _, _, hrest⟩ := C01_exchange_outcome hack f₁ r₁ w₁ P₁ I₁ H₁ b₁ _ pre₁ X₁ (by rw [hc₁]; intro h; cases h) σ₁ hd₁
   rw [hrest] at hd₂ ⊢
   exact (C01_exchange_outcome hack f₂ r₂ w₂ P₂ I₂ H₂ b₂ tail pre₂ X₂ htail σ₂ hd₂).2.2.1
+
+/-! ## Refused `Expect` (Proofs/ExchangeRefuse.lean): `C01_refused_outcome`, `C01_refused_independent` -/
+
+/-- non-vacuity of the refusal class: `POST` with `Expect`, answered `403` with `Content-Length: 0`, then
+    the start of a next message; a caller that gives up at once sends the body, a caller that looks first
+    does not — both complete with the same response observations -/
+def xField0 : Field := { name := [67,111,110,116,101,110,116,45,76,101,110,103,116,104], pre := [32], value := [48], post := [] }
+def xHead403 : Head := { ver := 1, d1 := 52, d2 := 48, d3 := 51, reason := some [78, 111], fields := [xField0] }
+def xBody0 : BPos := .len []
+def isLen0 : Except Fault BodyReader → Bool | .ok (.len 0) => true | _ => false
+theorem isLen0_eq (x : Except Fault BodyReader) (h : isLen0 x = true) : x = .ok (.len 0) := by
+  unfold isLen0 at h; split at h <;> simp_all
+theorem xRespOk403 : RespOk true xHead403 xBody0 .post where
+  hw := Head.wf_of_wfb _ (by decide +kernel)
+  hs := by decide +kernel
+  hc := by decide +kernel
+  h100 := by decide +kernel
+  hn := by intro f hf; simp [xHead403] at hf; subst hf; simp [xField0]
+  hsafe := fun _ => Or.inl (by decide +kernel)
+  hb := trivial
+  hframe := isLen0_eq _ (by decide +kernel)
+
+example : XSetupR true xPostEx xPostEx.call.analyzeRequest.1.req BodyWriter.newChunked xPayload xHead403 xBody0 where
+  send := sendSetup_of_new_body .post .h11 d10Call.req.uri _ xPayload _ rfl
+    (isOkUnit_eq _ (by decide +kernel)) (by decide +kernel) (Or.inl rfl)
+  hnd := by decide +kernel
+  resp := xRespOk403
+  haw := by decide +kernel
+
+def xStream403 : Bytes := xHead403.enc ++ xBody0.enc ++ xTail
+#guard recvDone (xRun true xPayload xStream403 xPostEx xEarly).1
+#guard recvDone (xRun true xPayload xStream403 xPostEx xHuge).1
+#guard (xRun true xPayload xStream403 xPostEx xEarly).2.2 == (xRun true xPayload xStream403 xPostEx xHuge).2.2
+#guard (xRun true xPayload xStream403 xPostEx xEarly).2.1.off == 3      -- gave up: the body went out
+#guard (xRun true xPayload xStream403 xPostEx xHuge).2.1.off == 0       -- looked first: refused, no body
+#guard (xRun true xPayload xStream403 xPostEx xHuge).1.closeReasons.contains .not100
